@@ -19,9 +19,10 @@ def check_pairs(items, res, stratum):
         case = {'op': op, 'x': list(fxm), 'cx': cx if len(cx) <= 8 else cx[:8] + ['...'], 'shape_x': shx, 'y': list(fym), 'cy': cy if len(cy) <= 8 else cy[:8] + ['...'], 'shape_y': shy, 'route': route, 'cfg': cfg}
         full = {'op': op, 'x': list(fxm), 'cx': cx, 'shape_x': shx, 'y': list(fym), 'cy': cy, 'shape_y': shy, 'route': route, 'cfg': cfg}
         try:
-            cfg2 = dict(cfg); build = cfg2.pop('_build', None)
+            cfg2 = dict(cfg); build = cfg2.pop('_build', None); tmpl = cfg2.pop('_template', None); ycfg = cfg2.pop('_ycfg', {})
+            if tmpl: fx.Fxp.template = fx.Fxp(None, dtype=tmpl)       # a class-wide template (plain format, no scaling): results are sized by the operands, not by it
             x = A.mk(fx, np, *fxm, cx if shx is not None else cx[0], shape=shx, **cfg2)
-            y = A.mk(fx, np, *fym, cy if shy is not None else cy[0], shape=shy)
+            y = A.mk(fx, np, *fym, cy if shy is not None else cy[0], shape=shy, **ycfg)
             if build == 'intval':
                 # operands built from integer VALUES (not raw codes) in integer formats: their value type is int
                 if fxm[2] == 0: x = fx.Fxp(np.array(cx, dtype=np.int64).reshape(shx) if shx is not None else int(cx[0]), *fxm, **cfg2)
@@ -36,6 +37,8 @@ def check_pairs(items, res, stratum):
             pend.append((full, A.fmt_of(z), lib.codes_of(z), lib.status3(z), z.dtype, bx, by, lib.codes_of(x) == list(cx) and lib.codes_of(y) == list(cy), isinstance(z, fx.Fxp)))
         except Exception as e:
             res.fail(full, 'C07: %s raised %s' % (op, lib.exc_name(e)), got=str(e)[:200])
+        finally:
+            fx.Fxp.template = None
     reqs = []
     for full, zf, zc, st, dt, bx, by, unchanged, isf in pend:
         r = full['cfg'].get('rounding', 'trunc'); o = full['cfg'].get('overflow', 'saturate')
@@ -179,6 +182,12 @@ def shard(shard, nshards, rng, tier, extra):
     check_pairs(all_pairs_items(tier, shard, nshards), res, 'A:all-code-pairs-small-words')
     check_pairs(corner_items(rng, (1500 if tier == 'quick' else 40000) // nshards), res, 'B:extreme-corners')
     check_pairs(random_items(rng, (3000 if tier == 'quick' else 80000) // nshards), res, 'C:random')
+    # the same operations while a class-wide template is installed (Fxp.template): the result format follows the operands
+    its = []
+    for it in corner_items(rng, (500 if tier == 'quick' else 12000) // nshards):
+        cfg = dict(it[8]); cfg['_template'] = rng.choice(['fxp-u8/2', 'fxp-s16/4', 'fxp-u16/0', 'fxp-s8/7'])
+        if '_build' not in cfg: its.append(it[:8] + (cfg,))
+    check_pairs(its, res, 'T:class-template-installed')
     tree_cases(rng, (600 if tier == 'quick' else 15000) // nshards, res)
     res.exhaustive = True
     return res
